@@ -3,12 +3,15 @@ C09 — a post-action is applied once, to the source that asked for it, and to n
 
 Algebra: the `|` / `|=` tables are proved for all 16 pairs about the definitions regenerated from
 `src/sources/mod.rs` on this run.  Resolution: the model's `resolve` (what `dispatch_events` does with
-the returned action and the deferred request).  The whole-loop clauses (applied exactly once, never
-carried over, never to another source) are decided by Spec.Core's C09 clauses on the traces of the
-real loop, tied to this model by the correspondence.
+the returned action and the deferred request).  "Never carried over to a later event — including when
+event processing returns an error" is a theorem about the *whole* loop model (`Verif.Inv.Ctl`): for every
+event, whatever its callbacks do, and for every history of operations.  Applied exactly once / never to
+another source are decided by Spec.Core's C09 clauses on the traces of the real loop, tied to this model
+by the correspondence (which also compares the `pending_action` cell after every operation).
 -/
 import Verif.Generated.PostActionSrc
 import Verif.Model.Loop
+import Verif.Inv.Ctl
 
 namespace Verif.Props.C09
 open Verif.Generated.PostActionSrc
@@ -45,5 +48,45 @@ theorem resolve_continue (pending : PostAction) : resolve .Continue pending = pe
 
 theorem resolve_table : ∀ r p : PostAction, resolve r p = if r = .Continue then p else r := by
   intro r p; cases r <;> cases p <;> rfl
+
+/-! ### the whole loop: a deferred action never outlives the event it was requested in -/
+
+open Verif.Loop Verif.Inv.Ctl in
+/-- **Between events.** Start one iteration of `dispatch_events` with nothing deferred and nothing borrowed: for
+    every event, every state of the loop and every callback program (any operations, from any source, including
+    `disable`/`update` on the running source, removal, insertion into the vacated slot, errors) the iteration ends —
+    normally or with the event's error — with `pending_action = Continue`, no dispatcher borrowed and none held. -/
+theorem pending_clear_after_every_event (ev : Verif.Kernel.Event) :
+    Hoare (Top none) (processOne ev) (fun _ => Top none) (Top none) := hoare_processOne ev
+
+open Verif.Loop Verif.Inv.Ctl in
+/-- **After every history.** Whatever sequence of operations, scripts and dispatches has run, unless a panic
+    aborted it: nothing is deferred, nothing borrowed, nothing held. -/
+theorem pending_clear_after_every_history (ops : List Op) (h : (run ops).aborted = false) :
+    (run ops).pending = .Continue ∧ (run ops).running = none ∧ (run ops).inflight = none := by
+  cases run_top ops with
+  | inl ht =>
+    have h' : ctl (run ops) = (.Continue, none, none) := ht
+    simp only [ctl, Prod.mk.injEq] at h'
+    exact h'
+  | inr ha => rw [ha] at h; cases h
+
+open Verif.Loop Verif.Inv.Ctl in
+/-- outside event processing, `disable` / `update` act at once and leave nothing behind (idle callbacks, top level) -/
+theorem top_level_requests_are_immediate (o : COp) : Verif.Inv.Keeps (execC o) (Top none) := keeps_top_execC o none
+
+/-! ### non-vacuity -/
+
+open Verif.Loop in
+/-- a ping source whose callback asks `disable` and then `update` on itself (both deferred) and returns `Continue`:
+    the history runs to its end without a panic, the requests were accepted, and nothing is left deferred -/
+def selfDeferring : List Op :=
+  [.c (.newPing 1), .c (.insert 1), .script 1 0 { ops := [.disable 1, .update 1], ret := .unit },
+   .c (.ping 1), .dispatch, .c (.newPing 2), .c (.insert 2), .c (.ping 2), .dispatch]
+
+open Verif.Loop in
+example : (run selfDeferring).aborted = false ∧ (run selfDeferring).pending = .Continue ∧
+    (run selfDeferring).log.contains (.opRes (.disable 1) .ok) = true ∧
+    (run selfDeferring).log.contains (.cb 2 .unit) = true := by decide +kernel
 
 end Verif.Props.C09
